@@ -63,33 +63,21 @@ func (p *_RemoveUnusedPass) DoPass() *ast.Module {
 		p.funcs[i].color = white
 	}
 
-Loop:
-	for _, fn := range p.m.Funcs {
-		// start
-		if fn.Name != "" && fn.Name == p.m.Start {
-			p.markFuncReachable(p.funcs[fn.Name])
-			continue
+	// 根: start / table elem / export (导入函数也可能被再次导出或放入表格)
+	markRoot := func(name string) {
+		if fn := p.funcs[name]; name != "" && fn != nil && fn.color == white {
+			p.markFuncReachable(fn)
 		}
-
-		// table elem
-
-		for _, elem := range p.m.Elem {
-			for _, elemValue := range elem.Values {
-				if fn.Name != "" && fn.Name == elemValue {
-					p.markFuncReachable(p.funcs[fn.Name])
-					continue Loop
-				}
-			}
+	}
+	markRoot(p.m.Start)
+	for _, elem := range p.m.Elem {
+		for _, elemValue := range elem.Values {
+			markRoot(elemValue)
 		}
-
-		// export
-		for _, exp := range p.m.Exports {
-			if exp.Kind == token.FUNC {
-				if exp.Name != "" && fn.Name == exp.FuncIdx {
-					p.markFuncReachable(p.funcs[fn.Name])
-					continue Loop
-				}
-			}
+	}
+	for _, exp := range p.m.Exports {
+		if exp.Kind == token.FUNC {
+			markRoot(exp.FuncIdx)
 		}
 	}
 
